@@ -4,7 +4,7 @@ CONSTANTS
   Scenarios <- ScenHSmall
   Grids = {"pow", "neg", "tie"}
   Orders = {"time", "series"}
-  NT = 3
+  NT = 2
   MaxOps = 3
   Tails <- TailsH
   Queries <- QueriesMC
